@@ -10,7 +10,14 @@ A case is a history:
 * `progs[i]` is the call sequence of caller i: serve | shutdown | close | probe | activate (`server_activate()`) | aenter
   (`async with server:` entered, i.e. `__aenter__()`; the exit is a `close`) (lifecycle calls, each run as its own
   asyncio task), cancel:<j> (task.cancel() on caller j's serve_forever / server_activate task), echo (a fresh client
-  connects, sends one line / datagram and waits for the echo), conn / disc (a persistent TCP client connects / disconnects).
+  connects, sends one line / datagram and waits for the echo), conn / disc (a persistent TCP client connects / disconnects),
+  bye (TCP: a fresh client sends `bye`; the handler answers and CLOSES THE CONNECTION ITSELF with `client.aclose()`; the client
+  closes its side only after the server's FIN: the server's side of the connection lingers in TIME_WAIT on the server's port;
+  UDP: an echo), renew (the server object - which must have been closed: nothing listening, no call in progress, otherwise
+  the op is skipped - is replaced by a NEW server object on the same address; lines `final closed=<b>` of the old object
+  and `@renew`; every later call goes to the new object.  Histories with `renew` are oracle-only, each object's life
+  judged on its own).
+  `"port": "fixed"`: the server is bound to a FIXED port reserved for the history (vlib/c18_ports.py) instead of port 0.
   Histories with `activate` / `aenter` have several tasks inside `server_activate()` at once (activation lock contended);
   they are judged by the oracle only (the Lean machine has no activation lock: no trace admission for them).
   A caller issues its next call only when the previous one has returned (a caller inside serve_forever stays there).
@@ -129,6 +136,8 @@ class _TCPHandler(AsyncStreamRequestHandler):
     async def handle(self, client):
         request = yield
         await client.send_packet(request + self.token)
+        if request == "bye":
+            await client.aclose()       # the server closes the connection first (FIN, not RST)
 
 
 class _UDPHandler(AsyncDatagramRequestHandler):
@@ -178,6 +187,13 @@ class Run:
         self.server: Any = None
         self.token = ":" + os.urandom(6).hex()     # never logged
         self.reply = ("ping" + self.token + "\n").encode()
+        self.reservation: Any = None
+        self.fixed_port = 0
+        if case.get("port") == "fixed":
+            from vlib import c18_ports
+            self.reservation = c18_ports.reserve(self.kind)
+            self.fixed_port = self.reservation.port
+        self.reuse_logged = False
 
     def log(self, s: str) -> None:
         self.lines.append(s)
@@ -191,8 +207,10 @@ class Run:
 
         async def mk():
             if self.kind == "tcp":
-                return AsyncTCPNetworkServer("127.0.0.1", 0, StreamProtocol(StringLineSerializer()), _TCPHandler(hops, self.token), backend=be)
-            return AsyncUDPNetworkServer("127.0.0.1", 0, DatagramProtocol(StringLineSerializer()), _UDPHandler(hops, self.token), backend=be)
+                return AsyncTCPNetworkServer("127.0.0.1", self.fixed_port, StreamProtocol(StringLineSerializer()),
+                                             _TCPHandler(hops, self.token), backend=be)
+            return AsyncUDPNetworkServer("127.0.0.1", self.fixed_port, DatagramProtocol(StringLineSerializer()),
+                                         _UDPHandler(hops, self.token), backend=be)
 
         t = self.loop.create_task(mk())
         self.loop.turn()
@@ -215,6 +233,11 @@ class Run:
                 addrs = srv.get_addresses()
                 if addrs:
                     self.port = addrs[0].port
+                if self.fixed_port and self.socks and not self.reuse_logged:
+                    # SO_REUSEADDR of the listening sockets as the public proxies show it (evidence only)
+                    self.reuse_logged = True
+                    vals = sorted({int(bool(p.getsockopt(socket.SOL_SOCKET, socket.SO_REUSEADDR))) for p in self.socks if p.fileno() != -1})
+                    self.log("@reuseaddr reuseaddr=" + (",".join(map(str, vals)) or "na"))
             except Exception:
                 pass
         if f != self.flags or force:
@@ -234,6 +257,9 @@ class Run:
         for _ in range(hops):
             await asyncio.sleep(0)
         srv = self.server
+        if op == "serve" and self.fixed_port:
+            from vlib import c18_ports
+            self.log("@port " + c18_ports.state_text(self.fixed_port, self.kind))
         self.log(f"call {i} {op}")
         exc: BaseException | None = None
         res = None
@@ -253,6 +279,13 @@ class Run:
         except BaseException as e:  # noqa: BLE001 (the outcome is the observable)
             exc = e
         self.log(f"ret {i} {res if res is not None else outcome_of(exc)}")
+        if op == "serve" and exc is not None and outcome_of(exc).startswith("exc:"):
+            subs = [repr(x) for x in getattr(exc, "exceptions", ()) or ()]
+            text = (f"{type(exc).__name__}({str(getattr(exc, 'message', ''))!r}: " + ", ".join(subs) + ")" if subs else repr(exc))
+            if self.fixed_port:
+                from vlib import c18_ports
+                text += f" [fixed port {self.fixed_port}: {c18_ports.state_text(self.fixed_port, self.kind)}]"
+            self.log(f"@serve-exc {i} " + text[:500].replace("\n", " "))
         if op == "shutdown":
             self.log(f"@ret-shutdown {i} serving={int(srv.is_serving())}")
         elif op == "close":
@@ -280,6 +313,10 @@ class Run:
             self.log("@tick")
         elif op == "echo":
             self.echo()
+        elif op == "bye":
+            self.bye()
+        elif op == "renew":
+            self.renew()
         elif op == "conn":
             self.connect_persistent()
         elif op == "disc":
@@ -394,6 +431,66 @@ class Run:
             s.close()
             self.quiet_silent()
 
+    def bye(self) -> None:
+        """a client whose connection the SERVER closes first"""
+        if self.kind != "tcp":
+            self.echo()
+            return
+        if not self.quiet():
+            return
+        if self.port is None:
+            self.log("@bye noaddr")
+            return
+        s = socket.socket(socket.AF_INET, socket.SOCK_STREAM)
+        s.settimeout(5)
+        try:
+            s.connect(("127.0.0.1", self.port))
+            if s.getsockname() == s.getpeername():
+                raise ConnectionRefusedError
+        except (ConnectionError, OSError):
+            s.close()
+            self.log("@bye refused")
+            return
+        s.setblocking(False)
+        try:
+            s.send(b"bye\n")
+            r = self._try_recv(s)
+        except (ConnectionError, OSError):
+            r = "reset"
+        if r == ("bye" + self.token + "\n").encode():
+            self.log("conn")
+            # the server's FIN (the handler closes the client right after its answer), then our side
+            eof = self._try_recv(s, 60)
+            self.log(f"@bye ok eof={int(eof == 'eof')}")
+            s.close()
+            self.log("disc")
+            self.quiet_silent()
+        else:
+            self.log("@bye " + ("silent" if r is None else str(r if isinstance(r, str) else "garbled")))
+            try:
+                s.setsockopt(socket.SOL_SOCKET, socket.SO_LINGER, b"\x01\x00\x00\x00\x00\x00\x00\x00")
+            except OSError:
+                pass
+            s.close()
+            self.quiet_silent()
+
+    def renew(self) -> None:
+        """the closed server object is replaced by a new one on the same address"""
+        if not self.quiet():
+            return
+        srv = self.server
+        if any(self.busy(i) for i in self.tasks) or srv.is_listening() or srv.is_serving() or not self.closed_now() or self.persistent:
+            self.log("@renew skipped")
+            return
+        self.log(f"final closed={self.closed_now()}")
+        self.log("@renew")
+        self.socks = []
+        self.flags = (0, 0)
+        self.reuse_logged = False
+        if not self.fixed_port:
+            self.port = None
+        self.make_server()
+
     def quiet_silent(self) -> None:
         n = len(self.lines)
         ok = self.quiet()
@@ -484,6 +581,8 @@ class Run:
                 self.loop.shutdown()
             except Exception:
                 pass
+            if self.reservation is not None:
+                self.reservation.release()
         return self.lines
 
 
